@@ -8,6 +8,7 @@ from __future__ import annotations
 
 import collections
 import contextlib
+import functools
 import json
 import os
 import sys
@@ -122,11 +123,12 @@ class Ctx:
         """Run fn(shard) for every shard on the pool; merge the Stats."""
         shards = list(shards)
         total = Stats()
+        call = functools.partial(guarded_call, fn)
         if self.workers <= 1 or len(shards) <= 1:
             for sh in shards:
-                total.merge(fn(sh))
+                total.merge(call(sh))
             return total
-        for st in self.pool().map(fn, shards, chunksize=chunksize):
+        for st in self.pool().map(call, shards, chunksize=chunksize):
             total.merge(st)
         return total
 
@@ -134,6 +136,28 @@ class Ctx:
         if self._pool is not None:
             self._pool.shutdown(wait=True, cancel_futures=True)
             self._pool = None
+
+
+def guarded_call(fn, arg):
+    """fn(arg), except that a library contract error escaping the harness becomes a violation instead of a crash.
+
+    Every harness calls the library only with inputs it has established as honest on the unchanged tree (a refusal it
+    expects is caught where it is expected), so a contract error that reaches this frame is the library refusing an
+    honest call: the property-relevant event, reported with the harness line it escaped from.  Anything else (a bug of
+    the harness, a foreign exception the sub-check did not classify) still propagates and ends the run with exit 2."""
+    try:
+        return fn(arg)
+    except lib_errors() as e:
+        import traceback
+        site = "?"
+        for fr in traceback.extract_tb(e.__traceback__):
+            if "/checks/" in fr.filename:
+                site = f"{os.path.basename(fr.filename)}:{fr.name}"
+        prop = fn.__module__.rsplit(".", 1)[-1].upper()[:3] if getattr(fn, "__module__", "").startswith("checks.") else "C??"
+        st = Stats()
+        st.evals += 1
+        st.violation(f"{prop}/library-refuses-an-honest-call/{site}", {"error": repr(e)[:200]}, "contract error escaped the harness", "an answer")
+        return st
 
 
 def shard_round_robin(items, nshards):
